@@ -16,7 +16,7 @@ import (
 )
 
 func TestMain(m *testing.M) {
-	vh.Main(map[string]vh.CheckFunc{"C14mdb": C14mdb})
+	vh.Main(map[string]vh.CheckFunc{"C14mdb": C14mdb, "C14mdbRepl": C14mdbRepl})
 }
 
 const mdbRecorder = `name: recorder
